@@ -134,6 +134,23 @@ def fieldRangeOpd (f : Str) (lo hi : Bool) (w1 w2 : Str) : Opd :=
   ⟨f ++ ':' :: rangeText lo hi w1 w2,
     .leaf (.range (some f) (if lo then .incl w1 else .excl w1) (if hi then .incl w2 else .excl w2)), 1⟩
 
+/-- the further elements of a set, each after `k + 1` blanks -/
+def elemsText : List (Nat × Str) → Str
+  | [] => []
+  | (k, w) :: more => ' ' :: (spaces k ++ (w ++ elemsText more))
+
+/-- the text of a set: `IN`, `k0 + 1` blanks, `[`, `k1` blanks, the elements, `]` -/
+def setText (k0 k1 : Nat) (w : Str) (more : List (Nat × Str)) : Str :=
+  'I' :: 'N' :: ' ' :: (spaces k0 ++ '[' :: (spaces k1 ++ (w ++ (elemsText more ++ [']']))))
+
+/-- `IN [a b c]` as an operand -/
+def setOpd (k0 k1 : Nat) (w : Str) (more : List (Nat × Str)) : Opd :=
+  ⟨setText k0 k1 w more, .leaf (.set none (w :: more.map (·.2))), 1⟩
+
+/-- `name:IN [a b c]` as an operand -/
+def fieldSetOpd (f : Str) (k0 k1 : Nat) (w : Str) (more : List (Nat × Str)) : Opd :=
+  ⟨f ++ ':' :: setText k0 k1 w more, .leaf (.set (some f) (w :: more.map (·.2))), 1⟩
+
 /-- `NOT x` (`k + 1` blanks after the keyword) as an operand -/
 def notOpd (k : Nat) (o : Opd) : Opd :=
   ⟨'N' :: 'O' :: 'T' :: ' ' :: (spaces k ++ o.text), o.leaf.unary .mustNot, o.cost + 1⟩
